@@ -1256,7 +1256,12 @@ func verifyGitObjectAndAttestations(ctx context.Context, policy *State, target s
 					slog.Debug("Reducing required global threshold by 1 (verifying if change is mergeable and RSL signature is required)...")
 					requiredThreshold--
 				}
-				if verifiedPrincipalIDs < requiredThreshold {
+				if options.verifyMergeable && !rslSignatureNeededForThreshold && verifiedPrincipalIDs == requiredThreshold-1 {
+					// The signature on the RSL entry for the merge can
+					// provide the one principal that is missing
+					slog.Debug("Global rule can be met if the merge is by an authorized person...")
+					rslSignatureNeededForThreshold = true
+				} else if verifiedPrincipalIDs < requiredThreshold {
 					// Check if the verifiedPrincipalIDs meets the required global
 					// threshold
 					slog.Debug(fmt.Sprintf("Global rule '%s' not met, required threshold '%d', only have '%d'", rule.GetName(), rule.GetThreshold(), verifiedPrincipalIDs))
